@@ -249,6 +249,11 @@ def run_unit(unit, rec):
             # h: determinism for the seed
             if bad is None and mi % 3 == 0:
                 rec.trans()
+                # the repeat starts from another state of numpy's global random source (unrelated draws by the caller in between):
+                # the seed argument alone must fix the result
+                _state = np.random.get_state()
+                np.random.seed(20240229 + mi)
+                np.random.random(7)
                 with warnings.catch_warnings():
                     warnings.simplefilter("ignore")
                     if registered:
@@ -260,6 +265,7 @@ def run_unit(unit, rec):
                         X2, P2, _ = est.fit_decomposition(T, **call)
                 if _verif:
                     rec.trans(len([e for e in _verif.drain() if e.get("kind") == "decomposition_iter"]))
+                np.random.set_state(_state)
                 if not (np.array_equal(X, X2) and np.array_equal(P, P2)):
                     bad = ("h", "two runs with the same seed give different results")
         rec.outcome("decomposition/%s" % ("ok" if bad is None else "bad"))
